@@ -725,8 +725,9 @@ class FnEmitter:
     def arg_sig(self, arg):
         """abbreviated type of an argument expression, looking through implicit conversions to void*"""
         a = arg
-        while a.get('kind') == 'ImplicitCastExpr' and a.get('castKind') in ('BitCast', 'NoOp') and 'void' in a['type'].get('qualType', ''):
-            a = children(a)[0]
+        while (a.get('kind') in ('ImplicitCastExpr', 'CXXStaticCastExpr', 'CStyleCastExpr', 'CXXReinterpretCastExpr', 'CXXFunctionalCastExpr') and
+               a.get('castKind') in ('BitCast', 'NoOp') and re.search(r'\bvoid\s*\*', a['type'].get('qualType', ''))) or a.get('kind') == 'ParenExpr':
+            a = children(a)[-1]
         c = self.tm.canon_of(a['type'])
         if a.get('valueCategory') in ('lvalue', 'xvalue'):
             c = c + ' &'
@@ -883,7 +884,12 @@ class FnEmitter:
             self.pre.append('%s = %s; %s = %s;' % (x, y, y, t))
             return ''
         if thisarg is None and name == 'distance' and len(args) == 2 and self.ctype(args[0]).endswith('*'):
-            return '(%s - %s)' % (self.paren(self.val(args[1])), self.paren(self.val(args[0])))
+            a1, a0 = self.val(args[1]), self.val(args[0])
+            if re.search(r'\+\+|--|\w\(', a1):
+                a1 = self.tmp(self.ctype(args[1]), a1)
+            if re.search(r'\+\+|--|\w\(', a0):
+                a0 = self.tmp(self.ctype(args[0]), a0)
+            return 'L0_PDIFF(%s, %s)' % (self.paren(a1), self.paren(a0))
         if thisarg is None and name in ('next', 'prev') and self.ctype(args[0]).endswith('*'):
             n = self.val(args[1]) if len(args) > 1 and args[1].get('kind') != 'CXXDefaultArgExpr' else '1'
             return '(%s %s %s)' % (self.paren(self.val(args[0])), '+' if name == 'next' else '-', self.paren(n))
@@ -908,9 +914,16 @@ class FnEmitter:
                 p0 = strip_cv(ptypes[0]) if ptypes else ''
                 prim = 'L0_E_move_assign' if p0.endswith('&&') else 'L0_E_copy_assign'
                 self.f.l0.add(prim)
-                text = '%s(%s, %s)' % (prim, thisarg(), self.addr(args[0]))
+                # C++17 sequencing of an assignment: right operand first, then the left one, each evaluated exactly once
+                rhs = self.addr(args[0])
+                if re.search(r'\+\+|--|\w\(', rhs):
+                    rhs = self.tmp('E *', rhs)
+                lhs = thisarg()
+                if re.search(r'\+\+|--|\w\(', lhs):
+                    lhs = self.tmp('E *', lhs)
+                text = '%s(%s, %s)' % (prim, lhs, rhs)
                 self.emit_stmt_call(text, prim == 'L0_E_copy_assign' or not L.facts.get('nothrow_move_assign', True))
-                return deref(thisarg())
+                return deref(lhs)
             if name.startswith('~'):
                 self.f.l0.add('L0_E_destroy')
                 self.pre.append('L0_E_destroy(%s);' % thisarg())
@@ -1393,8 +1406,11 @@ class FnEmitter:
                 rct = self.tm.ctype(rcanon)
         self.ret_ctype = rct
         body = []
+        self.ctor_cleanups = []
         if kind == 'CXXConstructorDecl':
             self.ctor_inits(n, body)
+            if self.ctor_cleanups:
+                self.decl_lines.append('int ctor_stage = 0;')
         b = body_of(n)
         self.stmt(b, body, '  ')
         if kind == 'CXXDestructorDecl':
@@ -1426,6 +1442,8 @@ class FnEmitter:
                 lines.append('    ' + self.destroy_text(name, ct, guard=True))
             if self.ret_by_out and self.ret_constructed:
                 lines.append('    ' + self.destroy_text('(*ret)', self.ret_out_ct).replace('&(*ret)', 'ret'))
+            for stage, nm, sct in reversed(self.ctor_cleanups):
+                lines.append('    if (ctor_stage >= %d) %s' % (stage, self.destroy_text(nm, sct)))
             lines.append('    l0_exc = saved_exit; }')
             if noex is True:
                 self.f.l0.add('L0_terminate')
@@ -1498,6 +1516,14 @@ class FnEmitter:
                 raise Unsupported('ctor initializer kind')
             for l in self.flush():
                 out.append('  ' + l)
+            # a constructor that exits by exception destroys the sub-objects it has completed, in reverse order
+            if 'anyInit' in ci:
+                sub_ct, sub_nm = (None if (re.search(r'\[\d*\]$', canon) or canon.endswith('&')) else ct), '(self->%s)' % fname
+            else:
+                sub_ct, sub_nm = bct, '(*(%s *)self)' % bct
+            if sub_ct is not None and (sub_ct == 'E' or sub_ct.startswith('struct optional_') or (sub_ct.startswith('struct ') and self.L.find_dtor_ct(sub_ct) is not None)):
+                self.ctor_cleanups.append((len(self.ctor_cleanups) + 1, sub_nm, sub_ct))
+                out.append('  ctor_stage = %d;' % len(self.ctor_cleanups))
 
     def dtor_tail(self, out):
         L = self.L
